@@ -21,20 +21,28 @@ def run(ctx):
     # 4. code -> spec: monitor decides, strict reports drift
     nval = 0
     chunk = 60000
+    paths = []
     for i in range(0, len(recs), chunk):
-        part = recs[i:i + chunk]
-        pp = ctx.path("chunk.ndjson")
-        vlib.write_ndjson(pp, part)
-        ok, l, inv, tout = ctx.validate("MidpointTrace", "MidpointTrace_mon.cfg", pp)
+        pp = ctx.path("chunk%d.ndjson" % (i // chunk))
+        vlib.write_ndjson(pp, recs[i:i + chunk])
+        paths.append(pp)
+    res = ctx.validate_parallel("MidpointTrace", "MidpointTrace_mon.cfg", paths, jobs=4)
+    clean = []
+    for k, (ok, l, inv, tout) in enumerate(res):
+        part = recs[k * chunk:(k + 1) * chunk]
         if not ok:
             bad = part[l - 1] if l else None
             ctx.violation("C02 %s %s" % (inv, bad["k"] if bad else "?"),
                           "real %s result violates %s: %s" % (bad["k"] if bad else "?", inv, bad), bad)
             continue
         nval += len(part)
-        ok, l, inv, tout = ctx.validate("MidpointTrace", "MidpointTrace_strict.cfg", pp)
-        if not ok:
-            ctx.drift.append("record %s differs from Midpoint.tla (%s)" % (part[l - 1] if l else "?", inv))
+        clean.append((k, paths[k]))
+    if clean:
+        sres = ctx.validate_parallel("MidpointTrace", "MidpointTrace_strict.cfg", [p for _, p in clean], jobs=4)
+        for (k, _), (ok, l, inv, tout) in zip(clean, sres):
+            if not ok:
+                part = recs[k * chunk:(k + 1) * chunk]
+                ctx.drift.append("record %s differs from Midpoint.tla (%s)" % (part[l - 1] if l else "?", inv))
     distinct = len({(x["k"], tuple(x["s"]), x["emb"]) for x in recs})
     ctx.cov.update(
         evaluations=len(recs), distinct_nontrivial=distinct,
